@@ -50,9 +50,9 @@ META = {
                    'nested translated __init__ of the parent, then SQLObject._create under the parent id; flush loop over n thunks; induction on '
                    'the depth) logs exactly Chain.createObj, so every RowCreatedSignal follows the INSERTs of all levels (assumes constructors '
                    'without column keywords, RowCreateSignal listeners that leave kwargs empty, validating defaults: ChainOk); still hand model + '
-                   'correspondence only: get / select (no events), listeners that create rows of another class, the full '
-                   'declaration history behind Chain.effective (one subclass declaration is translated: events._makeSubclassConnectionsPost '
-                   '-> C19_translated_subclass_listeners_eq_model, vlib/extractors/pyevsub.py); create needs >= 1 column and a fresh next id; connection, cache, '
+                   'correspondence only: get / select (no events), listeners that create rows of another class, (events._makeSubclassConnectionsPost is translated: C19_translated_subclass_listeners_eq_model, vlib/extractors/pyevsub.py; '
+                   'C19_translated_effective_listeners_eq_model chains it with the translated listen along a top-down declaration history to '
+                   'Chain.effective, and C19_translated_created_after_all_levels_history reads the classes\' listeners off that table); create needs >= 1 column and a fresh next id; connection, cache, '
                    'validators and the cascade inside destroySelf are stated parameters (header of Model/EvMainX.lean). '
                    'Trusted: Lean kernel; pydispatch delivery order (modelled as connection order, checked by the '
                    'correspondence run); the sampling correspondence.  The lazy path is stated as the code behaves: a lazy '
